@@ -11,6 +11,7 @@ import (
 	"github.com/mdlayher/arp"
 	"github.com/mdlayher/ethernet"
 	vr "go.universe.tf/metallb/internal/verifrt"
+	"k8s.io/apimachinery/pkg/types"
 	"k8s.io/apimachinery/pkg/util/sets"
 )
 
@@ -18,6 +19,7 @@ var verifHarnesses = map[string]func(a []int){
 	"VerifAnnounceStep": func(a []int) { VerifAnnounceStep(a[0], a[1]) },
 	"VerifARPArbitrary": func(a []int) { VerifARPArbitrary(a[0]) },
 	"VerifARPRequest":   func(a []int) { VerifARPRequest() },
+	"VerifAnnounceSpam": func(a []int) { VerifAnnounceSpam(a[0]) },
 }
 
 // ---- a packet connection that plays the wire: one inbound frame, records outbound frames
@@ -304,4 +306,43 @@ func VerifNewAnnounce(ifs []string) *Announce {
 // VerifState exposes what the announcer answers for: service -> advertisements, and the reference counts.
 func (a *Announce) VerifState() (map[string][]IPAdvertisement, map[string]int) {
 	return a.ips, a.ipRefcnt
+}
+
+// VerifAnnounceSpam (C20, no deadlock between the handlers and the announcement loop): the real spamLoop
+// runs as a goroutine and the queue of pending gratuitous announcements is modelled as always full
+// (unbuffered channel: a handler's enqueue completes only when the loop takes the item, exactly what a
+// full bounded queue does). n SetBalancer / DeleteBalancer calls for services on distinct addresses run
+// while a status fetcher reads; every call must return.
+func VerifAnnounceSpam(n int) {
+	a := VerifNewAnnounce([]string{"eth0"})
+	a.spamCh = make(chan IPAdvertisement)
+	go a.spamLoop()
+	done := make(chan struct{})
+	go func() {
+		_ = a.GetStatus(types.NamespacedName{Namespace: "ns", Name: "s0"})
+		_ = a.AnnounceName("ns/s0")
+		close(done)
+	}()
+	names := []string{"ns/s0", "ns/s1", "ns/s2"}
+	// Natively the interleaving cannot be chosen: the same calls are repeated many times so that a
+	// lock-order problem shows up as a hang of the test binary (which confirms a reported deadlock).
+	rounds := 1
+	if !vr.Symbolic() {
+		rounds = 4000
+	}
+	for r := 0; r < rounds; r++ {
+		for i := 0; i < n; i++ {
+			adv := NewIPAdvertisement(net.IP{10, 0, byte(r), byte(i)}, true, sets.New[string]())
+			a.SetBalancer(names[i], adv)
+			if vr.Bool() {
+				a.SetBalancer(names[i], adv) // repeated event for the same service
+			}
+		}
+		if vr.Bool() {
+			a.DeleteBalancer(names[0])
+		}
+	}
+	<-done
+	vr.Yield()
+	vr.Reach("announcer handlers returned")
 }
